@@ -134,7 +134,12 @@ def generate(rng, tier, focus):
     steps_factor = rng.choice([1, 1, 2, 3, rng.randint(1, sf_hi), rng.randint(1, sf_hi)])
     if rng.random() < 0.03:
         steps_factor = rng.randint(20, 60)
-    tr = {"focus": focus, "mode": "align", "start": start, "end": end, "restraints": restr, "deform": deform,
+    reassign = None
+    if rng.random() < 0.25:
+        # documented use: once both are set, either may be set again with another configuration of the same molecule
+        reassign = {"which": rng.choice(["start", "end", "both"]), "shift": gen.rvec(rng, 3.0),
+                    "R": gen.random_rotation(rng).tolist()}
+    tr = {"focus": focus, "mode": "align", "reassign": reassign, "start": start, "end": end, "restraints": restr, "deform": deform,
           "ignore_h": rng.random() < 0.6, "steps_factor": steps_factor,
           "sigma_scale": rng.choice([0.5, 0.5, rng.uniform(0.05, 2.0)]),
           "np_seed": rng.randrange(2 ** 32), "script": gen_script(rng)}
@@ -719,10 +724,22 @@ def execute(trace, ctx):
     user_start = gen.make_molecule(start_spec)
     user_end = gen.make_molecule(end_spec)
     snap_us, snap_ue = mol_snapshot(user_start), mol_snapshot(user_end)
+    re = trace.get("reassign")
+    later = {}
+    if re:
+        R, sh = np.array(re["R"]), np.array(re["shift"])
+        for key, spec in (("start", start_spec), ("end", end_spec)):
+            if re["which"] in (key, "both"):
+                pos = (np.array(spec["positions"]) - np.mean(spec["positions"], axis=0)) @ R.T + np.mean(spec["positions"], axis=0) + sh
+                later[key] = gen.make_molecule(spec, positions=pos.tolist())
+        ctx.probe("molecule_reassigned_before_alignment")
+    snap_later = {k: mol_snapshot(m) for k, m in later.items()}
 
     def run(monitored):
         """One complete execution; returns (alignment, watch, outcome)."""
         ali = Alignment(user_start, user_end)
+        for key, m in later.items():
+            setattr(ali, key, m)
         ini_s, ini_e = mol_snapshot(ali.start), mol_snapshot(ali.end)
         watch = Watch(ctx, tree_mobile)
         script = Script(trace["script"], ctx if monitored else _NullCtx(), n_mob, hubs)
@@ -776,8 +793,11 @@ def execute(trace, ctx):
     if trace["mode"] == "align":
         check_c06(trace, ctx, ali, ini_s, ini_e, start_fixed, tree_mobile, deform, mobile_spec)
     d = snapshots_equal(snap_us, mol_snapshot(user_start)) or snapshots_equal(snap_ue, mol_snapshot(user_end))
+    for k, m in later.items():
+        d = d or snapshots_equal(snap_later[k], mol_snapshot(m))
     if d:
-        ctx.violate("C06", "caller-molecule-modified", f"alignment changed the {d} of a molecule supplied by the caller")
+        ctx.violate("C06", "caller-molecule-modified", f"alignment changed the {d} of a molecule supplied by the caller"
+                                                       f"{' (one was supplied by re-assigning start/end)' if later else ''}")
     check_c09_end(trace, ctx, watch, info)
     # ---- repeat: the outcome is a deterministic function of inputs and seed ---------------------------
     final1 = _final(trace, ali, info)
